@@ -2,7 +2,9 @@ package mergep
 
 import (
 	"fmt"
+	"github.com/PowerDNS/lightningstream/snapshot"
 	"strings"
+	"sync"
 	"time"
 
 	"github.com/PowerDNS/lmdb-go/lmdb"
@@ -19,13 +21,15 @@ import (
 )
 
 type quietFleet struct {
-	DupSort  bool   `json:"dupsort,omitempty"`            // shadow mode with dupsort_hack and a dupsort DBI (emptied on every instance)
-	ForcedMS int    `json:"forced_interval_ms,omitempty"` // storage_force_snapshot_interval
-	Native   bool   `json:"native"`
-	Padding  bool   `json:"padding"`
-	N        int    `json:"n"`
-	Writes   int    `json:"writes"`
-	Seed     uint64 `json:"seed"`
+	DupSort  bool `json:"dupsort,omitempty"`            // shadow mode with dupsort_hack and a dupsort DBI (emptied on every instance)
+	ForcedMS int  `json:"forced_interval_ms,omitempty"` // storage_force_snapshot_interval
+	// SlowStoreMS: every Store takes this long (longer than the forced interval: a big LMDB or slow storage)
+	SlowStoreMS int    `json:"slow_store_ms,omitempty"`
+	Native      bool   `json:"native"`
+	Padding     bool   `json:"padding"`
+	N           int    `json:"n"`
+	Writes      int    `json:"writes"`
+	Seed        uint64 `json:"seed"`
 	// LateAt: after the writers stopped, one more application commit (the newest version of its key) is placed on
 	// instance i0 exactly at this yield point of i0's own sync loop, followed by silence: it must still reach everyone
 	LateAt string `json:"late_at,omitempty"`
@@ -87,6 +91,10 @@ func C10() *runner.Property {
 				}
 				cs = append(cs, runner.MkCase("fleet-forced-interval", fmt.Sprintf("%d-native=%v-dupsort=%v", i, q.Native, q.DupSort), c10Params{Fleet: &q}))
 			}
+			for i := 0; i < 4; i++ {
+				q := quietFleet{Native: i%2 == 0, N: 2, Writes: 6, Seed: r.U64(), ForcedMS: 40, SlowStoreMS: 60 + 30*(i/2)}
+				cs = append(cs, runner.MkCase("fleet-forced-interval", fmt.Sprintf("slowstore-%d-native=%v", i, q.Native), c10Params{Fleet: &q}))
+			}
 			return cs
 		},
 		Run: func(c runner.Case, env *runner.Env) (res runner.Result) {
@@ -111,6 +119,34 @@ func runQuietFleet(q quietFleet, env *runner.Env, res *runner.Result) {
 	b := bucket.New()
 	s := sched.New()
 	defer s.Close()
+	// forced-interval clause, exact form: a snapshot without a local change may only be started more than the interval
+	// after the previous upload of that instance was finished. storeDone = instant at which the storage is about to
+	// return from Store (before the syncer notes the time), sendStart = instant of the next send.before_txn.
+	var tmu sync.Mutex
+	storeDone := map[string][]time.Time{}
+	sendStart := map[string][]time.Time{}
+	if q.ForcedMS > 0 {
+		b.SetHook(func(op, name string, nth int) bucket.Decision {
+			if op == "Store" {
+				if q.SlowStoreMS > 0 {
+					time.Sleep(time.Duration(q.SlowStoreMS) * time.Millisecond)
+				}
+				if ni, err := snapshot.ParseName(name); err == nil {
+					tmu.Lock()
+					storeDone[ni.InstanceID] = append(storeDone[ni.InstanceID], time.Now())
+					tmu.Unlock()
+				}
+			}
+			return bucket.Decision{}
+		})
+		s.Delay = func(in, point string) {
+			if point == "send.before_txn" {
+				tmu.Lock()
+				sendStart[in] = append(sendStart[in], time.Now())
+				tmu.Unlock()
+			}
+		}
+	}
 	var insts []*inst.Inst
 	var loops []*sched.Loop
 	for i := 0; i < q.N; i++ {
@@ -213,6 +249,28 @@ func runQuietFleet(q quietFleet, env *runner.Env, res *runner.Result) {
 		allowed := q.N * (3 + int(el/(time.Duration(q.ForcedMS)*time.Millisecond)))
 		res.Count("forced_interval_fleets", 1)
 		res.Add("forced_interval_uploads", fmt.Sprintf("%d in %v (allowed %d)", n, el.Round(time.Millisecond), allowed))
+		interval := time.Duration(q.ForcedMS) * time.Millisecond
+		tmu.Lock()
+		for in, starts := range sendStart {
+			for _, st := range starts {
+				if st.Before(t0) {
+					continue // only the quiet phase: no application commit can explain an upload there
+				}
+				var prev time.Time
+				for _, d := range storeDone[in] {
+					if d.Before(st) && d.After(prev) {
+						prev = d
+					}
+				}
+				if !prev.IsZero() {
+					res.Count("forced_upload_gaps_checked", 1)
+					if gap := st.Sub(prev); gap <= interval {
+						res.Violate("forced-snapshot-before-the-interval-elapsed", fmt.Sprintf("instance %s started a snapshot without any local change %v after its previous upload was stored; storage_force_snapshot_interval is %v (Store takes %d ms)", in, gap, interval, q.SlowStoreMS), map[string]any{"fleet": q})
+					}
+				}
+			}
+		}
+		tmu.Unlock()
 		if n > allowed {
 			res.Violate("more-uploads-than-the-forced-interval-explains", fmt.Sprintf("%d uploads in %v by %d idle instances with storage_force_snapshot_interval=%dms (at most %d explained)", n, el, q.N, q.ForcedMS, allowed), map[string]any{"fleet": q, "events_tail": s.Tail(60)})
 		}
